@@ -1,6 +1,6 @@
 """C05 feasible projects complete; status truthful"""
 from .. import oracles as O
-from ..propkit import Kit
+from ..propkit import Kit, cutoff_ops
 
 
 def _oracle(S, b, trace):
@@ -13,5 +13,17 @@ def _oracle(S, b, trace):
     return out
 
 
-K = Kit("C05", _oracle, feasible_frac=0.8)
+def _ops(rng, c):
+    """mostly one run; sometimes a run cut off by max_time and continued, the continuation cut off again
+    a few steps later (max_time is a bound on project.time, not a budget of steps per call) and
+    continued once more to the end"""
+    ops = cutoff_ops(rng, c)
+    if len(ops) >= 2 and ops[-1].get("op") == "simulate" and rng.random() < 0.7:
+        last = ops[-1]
+        mid = dict(last, max_time=ops[0]["max_time"] + rng.choice([1, 2, 3, 5]))
+        ops = ops[:-1] + [mid, dict(last, init_state=False, init_log=False)]
+    return ops
+
+
+K = Kit("C05", _oracle, feasible_frac=0.8, make_ops=_ops)
 eval_case, run, replay = K.eval_case, K.run, K.replay
